@@ -66,6 +66,7 @@ type Config struct {
 	PCTDepth      int      // 0: drawn from Seed (1..3)
 	StepCap       int      // 0: 20000
 	AccessPreempt float64  // probability that an eligible shared-variable access is a preemption point
+	AccessStall   float64  // probability that, right after an access to a variable another task has touched, the task is put to sleep for a drawn number of steps (race-directed scheduling: lets the other tasks run on without acquiring anything this task releases later)
 	KeepEvents    bool     // keep the decoded event list in the result
 	Watchdog      time.Duration
 }
@@ -140,6 +141,7 @@ type task struct {
 	xferVal   any
 	xferReady bool
 	condWake  bool
+	stall     int // scheduling decisions this task still sits out (if others can run)
 }
 
 // Sim is the state of the running simulation.
@@ -438,6 +440,24 @@ func (s *Sim) schedule(from *task, park bool) {
 		unfinished++
 		if t.pend.enabled == nil || t.pend.enabled() {
 			enabled = append(enabled, t)
+		}
+	}
+	// stalled tasks sit out while anybody else can run
+	if len(enabled) > 1 {
+		var awake []*task
+		for _, t := range enabled {
+			if t.stall <= 0 {
+				awake = append(awake, t)
+			}
+		}
+		if len(awake) > 0 && len(awake) < len(enabled) {
+			s.probes["stalled_after_access_steps"]++
+			enabled = awake
+		}
+	}
+	for _, t := range s.tasks {
+		if t.stall > 0 {
+			t.stall--
 		}
 	}
 	if len(enabled) == 0 {
